@@ -347,6 +347,14 @@ theorem d32_blank_line_added :
   rw [stdout_eq, stdout_eq]
   decide
 
+/-- **D32-empty (finding, same mechanism):** when nothing of the report reaches the level, the final `write()` prints the empty buffer as
+    one blank line (`-b -l fail` on a peer with warnings only); the info-level batch output has no blank line. -/
+theorem empty_report_blank_line :
+    outEntries (stdoutOf (atLevel { batch := true } 2) [] { report := d32Report }) = [[]] ∧
+    ([] : Str) ∉ outEntries (stdoutOf (atLevel { batch := true } 0) [] { report := d32Report }) := by
+  rw [stdout_eq, stdout_eq]
+  decide
+
 theorem stdout_all_lines_false :
     ¬ (∀ (cfg : Cfg) (L : Nat) (vmsgs : List Str) (inp : Input),
         (outEntries (stdoutOf (atLevel cfg L) vmsgs inp)).Sublist (outEntries (stdoutOf (atLevel cfg 0) vmsgs inp))) := by
